@@ -27,6 +27,8 @@ def run(prog, chk):
         "an instance generated from a designspace ends up with the designspace's skip list: nothing rewrites the instance's lib after it is stored (R13.8)",
     ]
     chk.decided += ["the decomposition helper hands the skip set (include) and decomposeNested to the pen exactly as the filters gave them: a skipped glyph nested in a skipped glyph is inlined too (R13.9 = R01.2 = R15.1)"]
+    chk.decided += ["references to glyphs are only ever inlined by the four reviewed filter methods (decompose / skip-export, static and interpolatable), each resolving bases in the glyph set it works on: "
+                    "no other code inlines a (skipped) glyph from some other layer or font object (R13.10)"]
     chk.not_decided += ["that the remaining glyphs render identically (decomposition arithmetic is fontTools')"]
     chk.guard(r131, prog, chk)
     chk.guard(r132, prog, chk)
@@ -39,6 +41,7 @@ def run(prog, chk):
     chk.guard(r138, prog, chk)
     from . import c01
     chk.guard(c01.r012, prog, chk, "R13.9")
+    chk.guard(r1310, prog, chk)
 
 
 # ----------------------------------------------------------------------------- R13.1
@@ -638,7 +641,45 @@ def r138(prog, chk):
     chk.minimum("R13.8", 1)
 
 
+# ----------------------------------------------------------------------------- R13.10
+DECOMPOSE_CALLERS = {
+    "DecomposeComponentsFilter.filter": "self.context.glyphSet",
+    "DecomposeComponentsIFilter.filter": "interpolatedLayer or glyphSet",
+    "SkipExportGlyphsFilter.filter": "self.context.glyphSet",
+    "SkipExportGlyphsIFilter.filter": "interpolatedLayer or glyphSet",
+}
+
+
+def r1310(prog, chk):
+    """Who may call util.decomposeCompositeGlyph, and with which glyph set: the reviewed callers resolve component bases in the
+    very glyph set they filter (or its interpolated stand-in).  A new caller that resolves bases somewhere else (the font's
+    default layer for a glyph of another layer) inlines the wrong outline."""
+    ix = prog.ix
+    n = 0
+    for fi in ix.functions.values():
+        if isinstance(fi.node, ast.Lambda):
+            continue
+        for c in calls_named(fi, "decomposeCompositeGlyph"):
+            if fi.short == "deepCopyContours":
+                continue
+            n += 1
+            want = DECOMPOSE_CALLERS.get(fi.short)
+            gs = A.arg_at(c, 1, "glyphSet")
+            ok = want is not None and gs is not None
+            if ok:
+                def is_set(x, ff):
+                    return T(x) == "self.context.glyphSet" or (isinstance(x, ast.BoolOp) and isinstance(x.op, ast.Or) and len(x.values) == 2)
+                ok = T(gs) == want or every_origin(prog, fi, gs, is_set, allow_const=False)[0]
+            chk.ob("R13.10", f"{fi.short}|{A.keytext(fi.node, c)}|reviewed caller of the decomposition helper, bases resolved in the glyph set being filtered", ok, where(fi, c), detail=want or "not a reviewed caller",
+                   message=f"{fi.short} calls decomposeCompositeGlyph (`{T(c, 60)}`) and is not one of the reviewed callers {sorted(DECOMPOSE_CALLERS)} / resolves bases elsewhere: "
+                           f"a glyph reference is inlined from a glyph set other than the one being compiled (e.g. the default layer's outline for a colour-layer glyph)")
+    need(n >= 4, f"R13.10: decomposeCompositeGlyph call sites: {n}")
+    chk.minimum("R13.10", 4)
+
+
 MUTANTS = [
+    M("colour-layer components on skipped glyphs inlined from the font's default layer (seeded C13m)", "ufo2ft/filters/explodeColorLayerGlyphs.py", "ExplodeColorLayerGlyphsFilter._copyGlyph",
+      "layerGlyph = layerGlyphSet[glyphName]", "layerGlyph = layerGlyphSet[glyphName]\nfrom ufo2ft.util import decomposeCompositeGlyph\ndecomposeCompositeGlyph(layerGlyph, self.context.font, include=set())", rule="R13.10"),
     M("skip list narrowed to the default source's glyphs before the interpolatable filter runs (seeded C13k)", "ufo2ft/preProcessor.py", "BaseInterpolatablePreProcessor.__init__",
       "if skipExportGlyphs:\n    from ufo2ft.filters.skipExportGlyphs import SkipExportGlyphsIFilter\n    self._run(SkipExportGlyphsIFilter(skipExportGlyphs))",
       "if skipExportGlyphs and instantiator is not None:\n    skipExportGlyphs = instantiator.glyph_names & set(skipExportGlyphs)\nif skipExportGlyphs:\n    from ufo2ft.filters.skipExportGlyphs import SkipExportGlyphsIFilter\n    self._run(SkipExportGlyphsIFilter(skipExportGlyphs))", rule="R13.1"),
